@@ -393,14 +393,27 @@ static Cone make_cone(const Num & n, bool rect)
   return c;
 }
 
+// A particle at rest (zero momentum: the zero-energy X-rays of some capture decays) has no direction: it is neither inside nor
+// outside a cone, the statement "emitted into the cone" holds for it vacuously.
+static bool at_rest(V3 d) { return dot(d, d) == 0.0; }
+
 static bool in_circ(const Cone & c, V3 d, double & ang)
 {
+  if (at_rest(d)) {
+    ang = 0.0;
+    return true;
+  }
   ang = angle(d, c.ax);
   return ang <= c.a1 + TOL_ANG;
 }
 
 static void in_rect(const Cone & c, V3 d, bool & okA, bool & okB, double & angx, double & angy)
 {
+  if (at_rest(d)) {
+    angx = angy = 0.0;
+    okA = okB = true;
+    return;
+  }
   double z = dot(d, c.ax), x = dot(d, c.ex), y = dot(d, c.ey);
   angx = std::atan2(std::abs(x), z);
   angy = std::atan2(std::abs(y), z);
